@@ -16,7 +16,7 @@ type c11 struct{}
 func (c11) ID() string    { return "C11" }
 func (c11) Level() string { return "exploration" }
 func (c11) Rule() string {
-	return "27 default-able facts (default network membership; implicit default network; <project>_<key> names of network/volume/secret/config; depends_on implied by links, network_mode/ipc/pid service: namespaces, volumes_from; build context; dockerfile; port protocol; port mode; secret target; depends_on required; depends_on short list; env_file required; device count; pull_policy alias), each carried by its own service: every subset of <=3 facts left implicit and every subset of <=3 facts written explicitly (thorough: all 2^14 subsets of the first 14), delivered by main file (also declaring a `name:` other than the imposed project name) / override / include / extended base (other file and same file), and (main file, extended base) under a later layer that restates the same entry in its other spelling and adds other entries to the same attributes; oracle: implicit model == all-explicit model delivered the same way. Plus, per fact, an explicit non-default value that must survive, an implied depends_on that must not replace a declared one, and the `default` network present iff used, over every assignment of 3 services to 6 ways of using or not using it (implicit, explicit list, explicit mapping, with another network, network_mode, another network only). distinct = distinct subsets x origins"
+	return "30 default-able facts (default network membership; implicit default network; <project>_<key> names of network/volume/secret/config; depends_on implied by links, network_mode/ipc/pid service: namespaces (alone, next to a plain value of another namespace, two at once), volumes_from; build context; dockerfile; port protocol; port mode; secret target; depends_on required; depends_on short list; env_file required; device count; pull_policy alias), each carried by its own service: every subset of <=3 facts left implicit and every subset of <=3 facts written explicitly (thorough: all 2^14 subsets of the first 14), delivered by main file (also declaring a `name:` other than the imposed project name) / override / include / extended base (other file and same file), and (main file, extended base) under a later layer that restates the same entry in its other spelling and adds other entries to the same attributes; oracle: implicit model == all-explicit model delivered the same way. Plus, per fact, an explicit non-default value that must survive, an implied depends_on that must not replace a declared one, and the `default` network present iff used, over every assignment of 3 services to 6 ways of using or not using it (implicit, explicit list, explicit mapping, with another network, network_mode, another network only). distinct = distinct subsets x origins"
 }
 func (c11) Assumptions() []string {
 	return []string{"projects compared with go-cmp (EquateEmpty) over all model fields"}
@@ -72,6 +72,9 @@ func c11facts() []c11fact {
 			nonDef: "    image: i\n    ipc: \"service:t\"\n" + declared, nonDefOK: depCheck},
 		{name: "depends-on-from-pid", svc: "    image: i\n    pid: \"service:t\"\n", svcExpl: "    image: i\n    pid: \"service:t\"\n    depends_on:\n      t: {" + c11dep + "}\n",
 			nonDef: "    image: i\n    pid: \"service:t\"\n" + declared, nonDefOK: depCheck},
+		{name: "depends-on-from-ipc-next-to-host-network", svc: "    image: i\n    network_mode: host\n    ipc: \"service:t\"\n", svcExpl: "    image: i\n    network_mode: host\n    ipc: \"service:t\"\n    depends_on:\n      t: {" + c11dep + "}\n"},
+		{name: "depends-on-from-pid-next-to-shareable-ipc", svc: "    image: i\n    ipc: shareable\n    pid: \"service:t\"\n", svcExpl: "    image: i\n    ipc: shareable\n    pid: \"service:t\"\n    depends_on:\n      t: {" + c11dep + "}\n"},
+		{name: "depends-on-from-network-mode-and-pid", svc: "    image: i\n    network_mode: \"service:t\"\n    pid: \"service:u\"\n", svcExpl: "    image: i\n    network_mode: \"service:t\"\n    pid: \"service:u\"\n    depends_on:\n      t: {" + c11dep + "}\n      u: {" + c11dep + "}\n"},
 		{name: "depends-on-from-volumes-from", svc: "    image: i\n    volumes_from: [t]\n", svcExpl: "    image: i\n    volumes_from: [t]\n    depends_on:\n      t: {condition: service_started, restart: false, required: true}\n",
 			nonDef: "    image: i\n    volumes_from: [\"t:ro\"]\n    depends_on:\n      t: {condition: service_healthy, restart: true, required: false}\n", nonDefOK: func(p *types.Project, s string) string {
 				d := p.Services[s].DependsOn["t"]
